@@ -504,11 +504,28 @@ Proof.
   destruct (inb _ _); [|apply IH]. apply nf_bind; [apply nf_rt_remove|intros e'; apply IH].
 Qed.
 
+Lemma nf_df_drop take delta : forall l, nf (df_drop c take delta l).
+Proof.
+  induction l as [|x l IH]; cbn [df_drop]; [apply nf_ret|].
+  apply nf_bind; [nf0 cost_cb|]. intros _. apply nf_bind; [apply nf_when, nf_set_value|]. intros _.
+  apply nf_bind; [|intros _; exact IH].
+  destruct (inb _ _); [|apply nf_ret]. apply nf_bind; [apply nf_rt_remove|intros e'; nf0 cost_drop_elem].
+Qed.
+
+Lemma nf_df_run_u take delta : forall l fuel acc, nf (df_run_u c take delta l fuel acc).
+Proof.
+  induction l as [|x l IH]; intros fuel acc; cbn [df_run_u]; [apply nf_ret|].
+  destruct fuel as [|f]; [apply nf_ret|].
+  apply nf_bind; [apply nf_on_unwind; [nf0 cost_cb|apply nf_df_drop]|].
+  intros _. apply nf_bind; [apply nf_when, nf_set_value|]. intros _.
+  destruct (inb _ _); [|apply IH]. apply nf_bind; [apply nf_rt_remove|intros e'; apply IH].
+Qed.
+
 Lemma nf_map_drain_filter take delta j forget : nf (map_drain_filter c take delta j forget).
 Proof.
   unfold map_drain_filter. apply nf_bind; [apply nf_rt_iter|]. intros l.
-  apply nf_bind; [apply nf_df_run|]. intros r. apply nf_bind; [|intros _; apply nf_ret].
-  destruct forget; [apply nf_ret|]. apply nf_bind; [apply nf_df_run|intros r'; nf0 cost_drop_elems].
+  apply nf_bind; [apply nf_df_run_u|]. intros r. apply nf_bind; [|intros _; apply nf_ret].
+  destruct forget; [apply nf_ret|apply nf_df_drop].
 Qed.
 
 Lemma nf_cursor_view o : nf (cursor_view o).
@@ -550,19 +567,33 @@ Proof.
   apply nf_bind; [nf0 cost_drop_key|intros _; nf0 cost_drop_elems].
 Qed.
 
+Lemma cost_take_order_or m : cost dz (take_order_or m).
+Proof. apply cost_pure. intros s. unfold take_order_or, bind, get. cbn. auto. Qed.
+
 Lemma nf_hb_clone t : nf (hb_clone t).
 Proof.
   unfold hb_clone. destruct (_ =? _); [apply nf_ret|].
   apply nf_bind; [apply (nf_of_cost _ _ cost_tick_alloc)|]. intros _.
+  apply nf_bind; [nf0 cost_take_order_or|]. intros l.
   apply nf_bind; [apply nf_on_unwind; [apply nf_clone_elems|apply (nf_of_cost _ _ cost_tick_free)]|intros _; apply nf_ret].
 Qed.
 
 Lemma nf_and_carry : forall l t, nf (and_carry c t l).
 Proof.
   induction l as [|e l IH]; intros t; cbn [and_carry]; [apply nf_ret|].
+  apply nf_bind; [|intros t'; apply IH]. apply nf_on_unwind.
+  - apply nf_bind; [apply (nf_of_cost _ _ cost_tick_hash)|]. intros _. apply nf_bind; [nf0 cost_cb|]. intros _.
+    apply nf_bind; [apply nf_on_unwind; [nf0 cost_cb|nf0 cost_drop_key]|]. intros _. apply nf_hb_insert.
+  - apply nf_bind; [nf0 cost_drop_elems|intros _; apply (nf_of_cost _ _ (cost_hb_free _))].
+Qed.
+
+Lemma nf_and_carry_here : forall l, nf (and_carry_here c l).
+Proof.
+  induction l as [|e l IH]; cbn [and_carry_here]; [apply nf_ret|].
+  apply nf_bind; [nf0 cost_getm|]. intros t.
   apply nf_bind; [apply (nf_of_cost _ _ cost_tick_hash)|]. intros _. apply nf_bind; [nf0 cost_cb|]. intros _.
   apply nf_bind; [apply nf_on_unwind; [nf0 cost_cb|nf0 cost_drop_key]|]. intros _.
-  apply nf_bind; [apply nf_hb_insert|intros t'; apply IH].
+  apply nf_bind; [apply nf_hb_insert|]. intros t'. apply nf_bind; [nf0 cost_setm|intros _; exact IH].
 Qed.
 
 Lemma nf_rt_clone : nf (rt_clone c).
@@ -575,7 +606,8 @@ Qed.
 Lemma nf_hb_clone_from t sm : nf (hb_clone_from_with_hasher t sm).
 Proof.
   unfold hb_clone_from_with_hasher. destruct (_ && _).
-  - apply nf_bind; [apply nf_hb_clear|]. intros t1. apply nf_bind.
+  - apply nf_bind; [apply nf_hb_clear|]. intros t1. apply nf_bind; [nf0 cost_setm|]. intros _.
+    apply nf_bind; [nf0 cost_take_order_or|]. intros els. apply nf_bind.
     + apply nf_iterM. intros e. apply nf_bind; [nf0 cost_cb|]. intros _.
       apply nf_bind; [apply nf_on_unwind; [nf0 cost_cb|nf0 cost_drop_key]|]. intros _.
       apply nf_on_unwind; [apply (nf_of_cost _ _ cost_tick_hash)|nf0 cost_drop_elem].
@@ -584,7 +616,8 @@ Proof.
     + apply nf_bind; [nf0 cost_drop_elems|]. intros _. apply nf_bind; [apply (nf_of_cost _ _ (cost_hb_free _))|intros _; apply nf_ret].
     + apply nf_bind; [nf0 cost_drop_elems|]. intros _.
       apply nf_bind; [apply nf_when; apply nf_bind; [apply (nf_of_cost _ _ cost_tick_alloc)|intros _; apply (nf_of_cost _ _ (cost_hb_free _))]|]. intros _.
-      apply nf_bind; [apply nf_clone_elems|intros _; apply nf_ret].
+      apply nf_bind; [nf0 cost_take_order_or|]. intros els.
+      apply nf_bind; [apply nf_on_unwind; [apply nf_clone_elems|nf0 cost_setm]|intros _; apply nf_ret].
 Qed.
 
 Lemma nf_rt_clone_from src : nf (rt_clone_from c src).
@@ -592,7 +625,7 @@ Proof.
   unfold rt_clone_from. apply nf_bind; [apply (nf_of_cost _ _ cost_free_old)|]. intros _.
   apply nf_bind; [nf0 cost_getm|]. intros t. apply nf_bind; [nf0 cost_setm|]. intros _.
   apply nf_bind; [apply nf_hb_clone_from|]. intros t'. apply nf_bind; [nf0 cost_setm|]. intros _.
-  apply nf_bind; [apply nf_cursor_view|]. intros l. apply nf_bind; [apply nf_and_carry|intros t''; nf0 cost_setm].
+  apply nf_bind; [apply nf_cursor_view|]. intros l. apply nf_and_carry_here.
 Qed.
 
 Lemma nf_map_equal other : nf (map_equal other).
